@@ -85,4 +85,29 @@ theorem proposals_choice_matches_source (limit : Nat) (shuffled : List Proposal)
   simp only [Gen.Src.c08LogProposalsOverLimit, Gen.Src.c08CondProposalsOverLimit, decide_eq_true_eq]
   constructor <;> (split; rfl; exact List.take_of_length_le (by omega))
 
+
+/-! ### decision tree of `addByPercentageExceeded` (`"kind": "tree"`, regenerated on every run) -/
+
+/-- **One call of `addByPercentageExceeded` follows the source's tree**: first `limit <= 0` (exit 1, nothing added), then the
+length test; not too long = exit 4 (`limit` performables stay), too long = the branch that subtracts and either gives up or
+recurses.  `limit` is already clamped here (`performablesK_matches_source`), so the clamping `if` of the source — which has
+no exit — takes its else arm (`n := limit`).  The source re-assigns `limit` inside the too-long branch (`limit -= … + 1`);
+the tree names a leaf by its text, so the SECOND `limit <= 0` cannot be told apart from the first there: exits 2 and 3 are
+both mapped to the model's inner decision, which `trim_matches_source` ties to the regenerated expressions
+(`c08LimitExhausted` on the difference, `c08TrimBy`). -/
+theorem trim_tree_matches_source (maxLen base : Nat) (size : Nat → Nat) (fuel limit : Nat) :
+    trim maxLen base size (fuel + 1) limit =
+      match Gen.Src.c08TrimTree (limit : Int) (limit : Int) (size limit) maxLen with
+      | 1 => 0
+      | 4 => limit
+      | _ => if gaveUp maxLen base size limit then limit
+             else trim maxLen base size fuel (limit - (excess maxLen base size limit + 1)) := by
+  simp only [trim, Gen.Src.c08TrimTree]
+  have e1 : ((limit : Int) ≤ 0) ↔ limit = 0 := by omega
+  by_cases h0 : limit = 0
+  · simp [h0]
+  · by_cases hs : size limit > maxLen
+    · simp [e1, h0, hs]
+    · simp [e1, h0, hs]
+
 end AutoVerif.C08
